@@ -22,6 +22,8 @@ func checkC03(c *Ctx) {
 	c.Rule("C03-R3", "per table: prefix-free; capability→(key,mod) agrees with the field's name; xterm modifier suffixes pair with the xterm bit masks; control bytes map to Ctrl keys; every sequence reachable before the rune parser")
 	c.Rule("C03-R4", "every Key* capability that some entry populates is read by the table construction")
 	c.Rule("C03-R5", "NewEventKey turns control runes and DEL into key codes (Ctrl modifier except Backspace/Tab/Esc/Enter)")
+	c.Rule("C03-R6", "the pending-Alt flag survives between scans: it is a field of the screen, set only where the collect loop consumes a lone ESC, and tested-and-cleared by the rune and function-key parsers and the expiry path")
+	c.Expect("C03-R6", 3)
 	c.Expect("C03-R1", 3)
 	c.Expect("C03-R2", 49)
 	c.Expect("C03-R3", 49*3)
@@ -178,6 +180,7 @@ func checkC03(c *Ctx) {
 		c.Check(kt.fieldsRead[f], "C03-R4", f+":registered", "-", fmt.Sprintf("populated by %d entries (%s…) and read by the key-table builder: %v", len(users), users[0], kt.fieldsRead[f]))
 	}
 	c03NewEventKey(c, p)
+	c03AltPrefix(c, p)
 	c.extra["key_tables"] = map[string]interface{}{"entries": len(kt.tables), "registrar_calls_folded_max": kt.regSites, "capability_fields_read": len(kt.fieldsRead)}
 }
 
@@ -337,4 +340,63 @@ func c03NewEventKey(c *Ctx, p *Prog) {
 		}
 	})
 	c.Check(okConv, "C03-R5", "NewEventKey:key-from-rune", p.pos(fn.Pos()), "control rune converted to its key code")
+}
+
+// c03AltPrefix: ESC followed by a key is that key with Alt.  The ESC and the
+// key may arrive in different reads (the collect loop consumes the ESC, waits,
+// and the key completes in a later scan), so the flag must live in the screen,
+// not in a local of one scan.
+func c03AltPrefix(c *Ctx, p *Prog) {
+	collect := collectLoopFn(p)
+	if collect == nil {
+		c.Undecided("C03-R6", "collect loop", "-", "not found")
+		return
+	}
+	var setters, clearers []string
+	users := map[string]bool{}
+	for _, fn := range p.modFns {
+		if fn.Pkg != p.Tcell {
+			continue
+		}
+		for _, st := range storesTo(fn, "tcell.tScreen", "escaped") {
+			if b, ok := constBool(st.Val); ok && b {
+				setters = append(setters, fn.Name())
+			} else {
+				clearers = append(clearers, fn.Name())
+			}
+		}
+		if len(loadsOf(fn, "tcell.tScreen", "escaped")) > 0 {
+			users[fn.Name()] = true
+		}
+	}
+	if len(setters) == 0 && len(users) == 0 {
+		c.Fail("C03-R6", "alt-prefix:screen-state", p.pos(collect.Pos()), "no field of the screen carries the pending-Alt flag between scans")
+		return
+	}
+	c.Check(len(setters) == 1 && setters[0] == collect.Name(), "C03-R6", "alt-prefix:set-by-collect-loop", p.pos(collect.Pos()), fmt.Sprintf("t.escaped = true in %v", setters))
+	for _, want := range []string{"parseRune", "parseFunctionKey"} {
+		fn := p.Fn("tcell:(*tScreen)." + want)
+		ok := false
+		if fn != nil {
+			// every load is a branch condition whose true edge reaches a store of false
+			lds := loadsOf(fn, "tcell.tScreen", "escaped")
+			ok = len(lds) > 0
+			for _, ld := range lds {
+				cleared := false
+				for _, st := range storesTo(fn, "tcell.tScreen", "escaped") {
+					if b, isB := constBool(st.Val); isB && !b {
+						for _, g := range rawGuardsAt(st.Block()) {
+							if g.Cond == ssa.Value(ld) && g.Positive {
+								cleared = true
+							}
+						}
+					}
+				}
+				if !cleared {
+					ok = false
+				}
+			}
+		}
+		c.Check(ok, "C03-R6", "alt-prefix:"+want+":test-and-clear", "-", "the flag is consumed (cleared) exactly where it is applied as ModAlt")
+	}
 }
